@@ -20,8 +20,99 @@ Fixpoint lookup (name : list N) (l : list seqalg) : option seqalg :=
   | a :: r => if str_eqb name (seqalg_name a) then Some a else lookup name r
   end.
 
+(* ---- shist: a history of calls in one process.  Each call is independent (find_sequence_alg per
+   call); the only state is the caller's own slices: "n:s:list" makes slot s a new slice, "c:alg:s"
+   calls FindSequence on slot s (contfrac leaves it sorted), "st:s:i:d" is the caller adding d to its
+   own target i of slot s, "sr:k:i:d" is the caller scribbling on result k (no effect on anything the
+   library does later).  Result: the call results in order, the slots at the end, one flag per call
+   (earlier result unchanged when re-read at the end) and the undocumented-sharing code 0. ---- *)
+Definition semi : N := 59.
+Definition colon : N := 58.
+Definition slash : N := 47.
+
+Fixpoint set_nth {A} (d : A) (i : nat) (v : A) (l : list A) : list A :=
+  match i, l with
+  | O, [] => [v]
+  | O, _ :: r => v :: r
+  | S j, [] => d :: set_nth d j v []
+  | S j, x :: r => x :: set_nth d j v r
+  end.
+
+Fixpoint add_nth (i : nat) (d : Z) (l : list Z) : list Z :=
+  match i, l with
+  | _, [] => []
+  | O, x :: r => (x + d)%Z :: r
+  | S j, x :: r => x :: add_nth j d r
+  end.
+
+Definition call_result (alg : seqalg) (ts : list Z) : list N :=
+  match find_sequence_alg alg ts with
+  | Ok c => $"ok:" ++ prl c ++ [colon] ++ prl (targets_after alg ts)
+  | Err e => $"err:" ++ e
+  | Panic e => $"panic:" ++ e
+  | OutOfFuel => $"fuel"
+  end.
+
+(* state: slots, results (most recent first) *)
+Definition hstep (st : list (list Z) * list (list N)) (fields : list (list N))
+  : option (list (list Z) * list (list N)) :=
+  let '(slots, results) := st in
+  match fields with
+  | [k; a; b] =>
+      if str_eqb k $"n" then
+        match parse_nat a, pl b with
+        | Some s, Some l => Some (set_nth [] s l slots, results)
+        | _, _ => None
+        end
+      else if str_eqb k $"c" then
+        match lookup a (seqalgs ++ extra_algs), parse_nat b with
+        | Some alg, Some s =>
+            let ts := nth s slots [] in
+            Some (set_nth [] s (targets_after alg ts) slots, call_result alg ts :: results)
+        | _, _ => None
+        end
+      else None
+  | [k; a; b; c] =>
+      if str_eqb k $"st" then
+        match parse_nat a, parse_nat b, parse_hexZ c with
+        | Some s, Some i, Some d =>
+            if Nat.ltb s (length slots) then Some (set_nth [] s (add_nth i d (nth s slots [])) slots, results)
+            else Some st
+        | _, _, _ => None
+        end
+      else if str_eqb k $"sr" then
+        match parse_nat a, parse_nat b, parse_hexZ c with
+        | Some _, Some _, Some _ => Some st
+        | _, _, _ => None
+        end
+      else None
+  | _ => None
+  end.
+
+Fixpoint hrun (st : list (list Z) * list (list N)) (steps : list (list N))
+  : option (list (list Z) * list (list N)) :=
+  match steps with
+  | [] => Some st
+  | x :: r => match hstep st (split colon x) with
+              | Some st' => hrun st' r
+              | None => None
+              end
+  end.
+
+Definition dash : list N := [45].
+Definition run_history (script : list N) : list N :=
+  match hrun ([], []) (split semi script) with
+  | None => r_badcase
+  | Some (slots, results) =>
+      let rs := rev results in
+      r_ok ((match rs with [] => dash | _ => join [semi] rs end) ++ [sp] ++
+            (match slots with [] => dash | _ => join [slash] (map prl slots) end) ++ [sp] ++
+            (match rs with [] => dash | _ => map (fun _ => 49) rs end) ++ [sp] ++ [48])
+  end.
+
 Definition run (line : list N) : list N :=
   match split sp line with
+  | [f; a] => if str_eqb f $"shist" then run_history a else r_badcase
   | [f; a; b] =>
       if str_eqb f $"findsequence" then
         match lookup a (seqalgs ++ extra_algs), pl b with
